@@ -14,6 +14,7 @@ func init() {
 		Rules: []RuleSpec{
 			{"tx-commit-guard", "the per-transaction DAO layer is persisted only on the non-fault branch, it is the private layer of a context created for that transaction, and OnPersist/PostPersist persist only after a successful Exec", ruleTxCommitGuard},
 			{"unload-rollback", "the unload callback of a wrapped call persists only on commit, cuts notifications back and restores the base DAO layer on every exit; baselines are captured before the callee is loaded; the VM passes commit = no uncaught exception; ContractHasTryBlock scans every handler of every frame", ruleUnloadRollback},
+			{"exec-confinement", "in the execution closure no store targets a package-level variable or a native contract object: everything an execution writes lives in a layer that is dropped on FAULT / caught exception", ruleExecConfinement},
 			{"reset-complete", "every VM field written during execution is re-initialised by VM.Reset (the VM is reused for all transactions of a block)", ruleResetComplete},
 			{"cache-ro", "no write through a native cache obtained with GetROCache (a leaked alias is exactly a trace that survives rollback)", ruleCacheRO},
 			{"cache-copy", "Copy() of every native cache gives a dropped layer nothing to share with the layer below", ruleCacheCopy},
@@ -109,6 +110,7 @@ func init() {
 			{"cache-ro", "no write (field, element, delete/clear/copy, or through a parameter-mutating callee) through a native cache obtained with GetROCache, on any path (isCacheRW idiom handled by boolean correlation)", ruleCacheRO},
 			{"det-sources", "no wall clock, random source, environment or scheduler introspection is read in the closure of block processing except for values that flow only into logging/metrics", ruleDetSources},
 			{"det-maprange", "every map iteration in the closure of block processing is order-insensitive (keyed updates, or collected then sorted) or tabled with a reason", ruleDetMapRange},
+			{"exec-confinement", "in the execution closure no store targets a package-level variable of the module or a field of a native contract object (state outside the DAO layers), one tabled exception", ruleExecConfinement},
 			{"cfg-local", "no field of the node-local configuration (config.Ledger, NeoFS fetchers, ApplicationConfiguration) is read in the execution closure, one tabled exception", ruleCfgLocal},
 			{"cache-key-shape", "all keyed accesses of one native cache map use keys of the same shape (none mixes whole prefixed storage keys with prefix-stripped ones)", ruleCacheKeyShape},
 			{"derived-invalidation", "every state-changing writer of a cache field that NEO.computeCommitteeMembers reads marks the NEO cache dirty (votesChanged), since the recomputation is skipped otherwise", ruleDerivedInvalidation},
